@@ -13,6 +13,11 @@ from tqv import gen, ref, sdp_ref
 from tqv.core import Inconclusive, SubCheck, Violation, req
 from tqv.props import _ens
 
+# caller-owned arrays handed to the library must come back unchanged (see tqv/purity.py)
+from tqv.purity import install as _install_purity  # noqa: E402
+
+_install_purity('toqito.state_opt', 'toqito.state_props')
+
 PROPERTY = "C11"
 RULE = (
     "Ensembles drawn as in C10 (generic / orthogonal / dependent / two-state / geometrically uniform kets, mixed states; "
